@@ -77,16 +77,16 @@ def splitLines : Str → List Str
       | [] => [[c]]
       | l :: ls => (c :: l) :: ls
 
-/-- the text after the first `label: ` of a line, if the line has that label after its gutter -/
+/-- the characters of the gutter of a trace line: the indentation bars, the ticks `- ` / `| ` / `+ `
+    and the branch marks `\` and `X` -/
+def isGutterChar (c : Char) : Bool :=
+  c == ' ' || c == '|' || c == '-' || c == '+' || c == '\\' || c == 'X'
+
+/-- the text after `label: ` of a line that has this label right after its gutter (however deep the
+    line is nested: the gutter of a line at depth `d` is `d + 3` characters long) -/
 def afterLabel (label : Str) (line : Str) : Option Str :=
-  let rec go : Nat → Str → Option Str
-    | 0, _ => none
-    | fuel + 1, l =>
-      if isPrefix (label ++ ": ".toList) l then some (l.drop (label.length + 2))
-      else match l with
-        | c :: r => if c == ' ' || c == '|' || c == '-' || c == '+' || c == '\\' || c == 'X' then go fuel r else none
-        | [] => none
-  go 12 line
+  let l := line.dropWhile isGutterChar
+  if isPrefix (label ++ ": ".toList) l then some (l.drop (label.length + 2)) else none
 
 /-- do the items of `want` occur in `have` in this order (each matched by `m`)? -/
 def subseqBy {α β} (m : α → β → Bool) : List α → List β → Bool
@@ -163,30 +163,46 @@ def nothingReturnedBelow (evs : List Ev) (calls sp : List CallInfo) (lines : Lis
     else ok && calls.any (fun c => showsValue c.spec c.slen shown && raisedOrChain calls ch (calls.length + 1) c.idx))
     true
 
+/-! ### the clauses -/
+
+/-- 1. the text begins with the root target -/
+def clause1 (root : CallInfo) (lines : List Str) : Bool :=
+  match lines.head? with
+  | some l => (match afterLabel "Target".toList l with
+     | some shown => showsValue root.target root.tlen shown
+     | none => false)
+  | none => false
+
+/-- the texts of the `Spec:` lines, in order -/
+def specLinesOf (lines : List Str) : List Str := lines.filterMap (afterLabel "Spec".toList)
+
+/-- 2. the spec of every call the root error propagated through, in evaluation order -/
+def clause2 (sp : List CallInfo) (lines : List Str) : Bool :=
+  subseqBy (fun (c : CallInfo) shown => showsValue c.spec c.slen shown) sp (specLinesOf lines)
+
+/-- 3. the target the innermost failing spec received is the one in force at its line -/
+def clause3 (inner : CallInfo) (lines : List Str) : Bool :=
+  (targetsAtLastSpec lines inner).any (fun t => showsValue inner.target inner.tlen t)
+
+/-- 4. every failed branch of a call on the path, with the error that ended it -/
+def clause4 (calls sp : List CallInfo) (errText : Nat → Str) (rootError : Nat) (text : Str) (lines : List Str) : Bool :=
+  sp.all (fun c => (failedBranches calls c rootError).all (fun b =>
+    (specLinesOf lines).any (showsValue b.spec b.slen) &&
+    (match b.result with
+     | some e => isInfix (errText e) text
+     | none => true)))
+
 /-- the clauses of the property, separately (for diagnosis); `checkC05` is their conjunction -/
 def clausesC05 (evs : List Ev) (errText : Nat → Str) (rootError : Nat) (text : String) : List Bool :=
   let calls := callsOf evs
   let sp := spine calls rootError
   let lines := splitLines text.toList
-  let specLines := lines.filterMap (afterLabel "Spec".toList)
   match calls.head?, sp.getLast? with
   | some root, some inner =>
-    [ -- 1. begins with the root target
-      (match lines.head? with
-       | some l => (match afterLabel "Target".toList l with
-          | some shown => showsValue root.target root.tlen shown
-          | none => false)
-       | none => false),
-      -- 2. every spine spec, in order
-      subseqBy (fun (c : CallInfo) shown => showsValue c.spec c.slen shown) sp specLines,
-      -- 3. the target the innermost failing spec received is the one in force at its line
-      (targetsAtLastSpec lines inner).any (fun t => showsValue inner.target inner.tlen t),
-      -- 4. every failed branch of a spine call, with the error that ended it
-      sp.all (fun c => (failedBranches calls c rootError).all (fun b =>
-        specLines.any (showsValue b.spec b.slen) &&
-        (match b.result with
-         | some e => isInfix (errText e) text.toList
-         | none => true))),
+    [ clause1 root lines,
+      clause2 sp lines,
+      clause3 inner lines,
+      clause4 calls sp errText rootError text.toList lines,
       -- 5. nothing that returned normally is listed below the failing spec
       nothingReturnedBelow evs calls sp lines ]
   | _, _ => [false]
